@@ -21,9 +21,9 @@ type NF struct {
 
 // NFOptions ...
 type NFOptions struct {
-	Dir      string                 // directory prefix to hide
-	Requests []Request              // request alphabet
-	SNIs     []string               // SNI alphabet
+	Dir      string                   // directory prefix to hide
+	Requests []Request                // request alphabet
+	SNIs     []string                 // SNI alphabet
 	CertID   func(file string) string // identity of a certificate file (fingerprint); nil = file name
 }
 
